@@ -1,9 +1,8 @@
 /- Line-protocol driver: one JSON request per line on stdin, one JSON answer per line on stdout. -/
 import Driver.Core
-import MlaModel.Crypto.Sha2
+import Driver.Layers
 open Lean Driver MlaModel
 
-def sha (b : Bytes) : Bytes := MlaModel.Crypto.sha256L b
 
 def dispatch (j : Json) : Json :=
   match getStr j "cmd" with
@@ -12,6 +11,11 @@ def dispatch (j : Json) : Json :=
   | "reader.read" => cmdReaderRead j
   | "linear.run" => cmdLinearRun j
   | "blocks.decode" => cmdBlocksDecode j
+  | "repair.run" => cmdRepairRun j
+  | "enc.seal" => cmdEncSeal j
+  | "enc.trace" => cmdEncTrace j
+  | "enc.failsafe" => cmdEncFailsafe j
+  | "enc.open" => cmdEncOpen j
   | c => Json.mkObj [("err", Json.str ("unknown-cmd:" ++ c))]
 
 partial def loop (h : IO.FS.Stream) (out : IO.FS.Stream) : IO Unit := do
